@@ -51,6 +51,24 @@ pub enum Case {
     /// the heads a reconciliation session reports (what the live engine broadcasts as its sync report afterwards) and what a
     /// third replica makes of that report
     Session(SessionCase),
+    /// the live engine's use of heads: an incoming sync report must lead to a dial exactly when it names news, and the
+    /// report the engine broadcasts after a session must carry the newest received heads that fit a gossip message
+    Live(LiveCase),
+}
+
+#[derive(Serialize, Deserialize, Clone, Debug)]
+pub struct LiveCase {
+    /// contents of the document at the node: (author 0..4, timestamp offset, content)
+    pub entries: Vec<(u8, u8, u8)>,
+    /// the incoming report: (author slot, timestamp selector as in `news_ts`)
+    pub report: Vec<(u8, u8)>,
+    /// the document has been left before the report arrives (no dial, whatever it says)
+    pub left: bool,
+    /// a report that does not decode
+    pub garbage: bool,
+    /// heads a finished session reports as received, and its received-count (0: nothing to announce)
+    pub recv: Vec<(u16, u64)>,
+    pub num_recv: u8,
 }
 
 #[derive(Serialize, Deserialize, Clone, Debug)]
@@ -116,7 +134,11 @@ impl Prop for C13 {
          removal with data, (b) >= 2 authors on one timestamp or a limit that cuts the set; (c) two replicas are reconciled and each \
          side's reported heads_received (what the engine broadcasts as its sync report) must be the per-author maxima of the entries \
          it was sent according to the transcript, and a third replica must count exactly the unknown / strictly newer authors of that \
-         report as news; distinct by serialised case"
+         report as news; (d) at a real live actor (hook H9): an incoming sync report for a document with generated contents leads to a \
+         dial of the reporting peer exactly when it names news (never for a left document or an undecodable report), and after a \
+         finished session with generated heads_received / received-count exactly one report is handed to gossip iff something was \
+         received, naming this document and the newest received heads that fit the gossip message limit (maximal); distinct by \
+         serialised case"
             .into()
     }
 
@@ -152,7 +174,16 @@ impl Prop for C13 {
         )
             .prop_map(|(heads, other, limits, fit_limits)| Case::Heads(HeadSet { heads, other, limits, fit_limits }));
         let session = (pools(6), vec(egen(), 0..=8), vec(egen(), 0..=8), vec(egen(), 0..=8)).prop_map(|(pools, a, b, c)| Case::Session(SessionCase { pools, a, b, c }));
-        prop_oneof![10 => hist, 19 => heads, 1 => many, 1 => session].boxed()
+        let live = (
+            vec((0u8..4, 0u8..8, 0u8..4), 0..=6),
+            vec((0u8..6, prop_oneof![4 => 0u8..8, 1 => 8u8..16]), 0..=4),
+            prop::bool::weighted(0.15),
+            prop::bool::weighted(0.1),
+            prop_oneof![6 => vec((0u16..13, ts_strategy()), 0..=8), 1 => vec((0u16..400, ts_strategy()), 80..=200)],
+            prop_oneof![1 => Just(0u8), 3 => 1u8..=255],
+        )
+            .prop_map(|(entries, report, left, garbage, recv, num_recv)| Case::Live(LiveCase { entries, report, left, garbage, recv, num_recv }));
+        prop_oneof![100 => hist, 190 => heads, 10 => many, 10 => session, 3 => live].boxed()
     }
 
     fn check(ctx: &mut Ctx, case: &Case) -> Outcome {
@@ -160,6 +191,7 @@ impl Prop for C13 {
             Case::History(h) => check_history(ctx, h),
             Case::Heads(h) => check_heads(h),
             Case::Session(s) => check_session(ctx, s),
+            Case::Live(l) => check_live(ctx, l),
         }
     }
 
@@ -509,4 +541,176 @@ fn check_session(ctx: &mut Ctx, c: &SessionCase) -> Outcome {
 
 fn brief_heads(m: &BTreeMap<AuthorId, u64>) -> Vec<(String, u64)> {
     m.iter().map(|(a, t)| (hex::encode(&a.as_bytes()[..2]), *t)).collect()
+}
+
+/// Independent size of the heads encoding: list-length prefix + per head 32 id bytes + the timestamp varint.
+fn encoded_size(heads: &[(AuthorId, u64)]) -> usize {
+    varint_len(heads.len() as u64) + heads.iter().map(|(_, t)| 32 + varint_len(*t)).sum::<usize>()
+}
+
+#[derive(Deserialize)]
+#[allow(dead_code)]
+enum MOp {
+    Put(SignedEntry),
+    ContentReady(iroh_blobs::Hash),
+    SyncReport(MReport),
+}
+#[derive(Deserialize)]
+struct MReport {
+    namespace: iroh_docs::NamespaceId,
+    heads: Vec<u8>,
+}
+
+/// The live engine's side of the property (engine/live.rs): `on_sync_report` and the report sent by `on_sync_finished`.
+fn check_live(ctx: &mut Ctx, c: &LiveCase) -> Outcome {
+    use crate::props::c11::{fixture, Fixture};
+    use iroh_docs::{actor::OpenOpts, engine::SyncReason, net::SyncFinished, sync::SyncOutcome};
+    let mut o = Outcome::default();
+    o.class("live-engine");
+    let r: R<()> = (|| {
+        fixture(ctx)?;
+        let mut fx = ctx.fixtures.remove("c11").ok_or("fixture")?;
+        let res: R<()> = {
+            let f: &mut Fixture = fx.downcast_mut::<Fixture>().ok_or("fixture type")?;
+            ctx.rt.block_on(async {
+                f.counter += 1;
+                let mut seed = [0xC3u8; 32];
+                seed[..8].copy_from_slice(&f.counter.to_le_bytes());
+                seed[8..12].copy_from_slice(&std::process::id().to_le_bytes());
+                let nssec = iroh_docs::NamespaceSecret::from_bytes(&seed);
+                let ns = nssec.id();
+                let peer = f.ids[1];
+                let a = &mut f.actors[0];
+                let sync = a.verif_sync_handle();
+                verif::set_clock(Some(T0 + 3));
+                es(sync.import_namespace(nssec.clone().into()).await)?;
+                // contents first (no subscriber yet: the engine's event queue is not served by this harness)
+                es(sync.open(ns, OpenOpts::default().sync()).await)?;
+                let mut model = Model::default();
+                for (i, (au, t, ct)) in c.entries.iter().enumerate() {
+                    let e = sign(&nssec, &ESpec { a: *au, k: vec![b'k', i as u8], t: T0 + *t as u64, c: *ct });
+                    if model.apply(&e).is_some() {
+                        es(sync.insert_remote(ns, e, [3u8; 32], ContentStatus::Missing).await)?;
+                    }
+                }
+                let _ = es(sync.close(ns).await)?;
+                if a.verif_start_sync(ns).await.is_none() {
+                    return Err("start_sync failed".into());
+                }
+                if c.left {
+                    a.verif_leave(ns).await;
+                    o.class("live-engine/report-for-a-left-document");
+                }
+                let _ = verif::take_broadcasts();
+                // (1) an incoming report
+                let mut rep = AuthorHeads::default();
+                for (slot, t) in &c.report {
+                    rep.insert(slot_author(*slot as u16), news_ts(*t));
+                }
+                let bytes = if c.garbage { vec![0xFF, 0xFF, 0xFF, 0xFF, 0x7F, 1, 2, 3] } else { es(rep.encode(None))? };
+                let ours = model.heads();
+                let news = rep.iter().filter(|(au, t)| ours.get(&au.to_bytes()).map(|mine| **t > *mine).unwrap_or(true)).count();
+                let want_dial = news > 0 && !c.left && !c.garbage;
+                let dialled = a.verif_sync_report(peer, ns, bytes).await;
+                if dialled != want_dial {
+                    o.fail(
+                        "C13/report-vs-dial",
+                        format!(
+                            "the node holds heads {:?} and received the report {:?} (left = {}, undecodable = {}): {} authors are news, so it {} dial the reporting peer, but it {}",
+                            ours.iter().map(|(au, t)| (hex::encode(&au[..2]), *t)).collect::<Vec<_>>(),
+                            brief_heads(&rep.iter().map(|(au, t)| (*au, *t)).collect()),
+                            c.left,
+                            c.garbage,
+                            news,
+                            if want_dial { "must" } else { "must not" },
+                            if dialled { "did" } else { "did not" }
+                        ),
+                    );
+                }
+                if want_dial {
+                    o.class("live-engine/report-with-news");
+                } else if !c.left && !c.garbage {
+                    o.class("live-engine/report-without-news");
+                }
+                o.nontrivial = !c.report.is_empty();
+                // (2) a session finishes: what is announced to the neighbours
+                if !c.left && !o.failed() {
+                    if !dialled && !a.verif_sync_with_peer(ns, peer, SyncReason::DirectJoin) {
+                        return Err("the probe dial was refused".into());
+                    }
+                    let mut recv = AuthorHeads::default();
+                    let mut rmodel: BTreeMap<AuthorId, u64> = BTreeMap::new();
+                    for (slot, t) in &c.recv {
+                        recv.insert(slot_author(*slot), *t);
+                        let h = rmodel.entry(slot_author(*slot)).or_insert(0);
+                        *h = (*h).max(*t);
+                    }
+                    let outcome = SyncOutcome { heads_received: recv, num_recv: c.num_recv as usize, num_sent: 0 };
+                    let reason = if dialled { SyncReason::SyncReport } else { SyncReason::DirectJoin };
+                    let _ = verif::take_broadcasts();
+                    a.verif_connect_finished(ns, peer, reason, Ok(SyncFinished { namespace: ns, peer, outcome, timings: Default::default() })).await;
+                    let limit = a.verif_gossip_max_message_size();
+                    let mut reports = vec![];
+                    for (bns, msg) in verif::take_broadcasts() {
+                        if bns != ns.to_bytes() {
+                            continue;
+                        }
+                        if let Ok(MOp::SyncReport(r)) = postcard::from_bytes::<MOp>(&msg) {
+                            reports.push(r);
+                        }
+                    }
+                    if c.num_recv == 0 {
+                        if !reports.is_empty() {
+                            o.fail("C13/report-without-news-received", "a session that received nothing was announced to the neighbours with a sync report".to_string());
+                        }
+                    } else if reports.len() != 1 {
+                        o.fail("C13/report-after-session", format!("a session that received {} entries led to {} sync reports to the neighbours (expected one)", c.num_recv, reports.len()));
+                    } else {
+                        let r = &reports[0];
+                        let kept = es(AuthorHeads::decode(&r.heads))?;
+                        let kept: Vec<(AuthorId, u64)> = kept.iter().map(|(au, t)| (*au, *t)).collect();
+                        let mut all: Vec<(AuthorId, u64)> = rmodel.iter().map(|(au, t)| (*au, *t)).collect();
+                        all.sort_by(|x, y| y.1.cmp(&x.1));
+                        let mut problem = None;
+                        if r.namespace != ns {
+                            problem = Some("it names another document".to_string());
+                        } else if r.heads.len() > limit {
+                            problem = Some(format!("its heads take {} bytes, the gossip limit is {limit}", r.heads.len()));
+                        } else if kept.iter().any(|h| !all.contains(h)) {
+                            problem = Some("it names a head that was not received".to_string());
+                        } else {
+                            // the k newest (as a multiset of timestamps), k maximal for the limit
+                            let k = kept.len();
+                            let mut kt: Vec<u64> = kept.iter().map(|h| h.1).collect();
+                            kt.sort_by(|x, y| y.cmp(x));
+                            let want_t: Vec<u64> = all.iter().take(k).map(|h| h.1).collect();
+                            if kt != want_t {
+                                problem = Some(format!("it keeps {k} heads but not the {k} newest"));
+                            } else if k < all.len() && encoded_size(&all[..k + 1]) <= limit {
+                                problem = Some(format!("it keeps {k} of {} heads although {} fit into {limit} bytes", all.len(), k + 1));
+                            }
+                            if k < all.len() {
+                                o.class("live-engine/report-cut-by-the-gossip-limit");
+                            }
+                        }
+                        if let Some(pb) = problem {
+                            o.fail("C13/report-after-session", format!("the sync report sent after a session that received {} heads: {pb}", all.len()));
+                        }
+                    }
+                }
+                // forget the document again (the fixture is reused)
+                let _ = a.verif_leave(ns).await;
+                while let Ok(false) = sync.close(ns).await {}
+                let _ = sync.drop_replica(ns).await;
+                Ok(())
+            })
+        };
+        ctx.fixtures.insert("c11", fx);
+        res
+    })();
+    verif::set_clock(None);
+    if let Err(e) = r {
+        o.fail("C13/harness-error", e);
+    }
+    o
 }
